@@ -54,7 +54,24 @@ let ms_model (a : ostring list) : ostring list =
   r
 
 (* the SQL store: same contract; CreatedAt is stamped by the database and not compared; the statement log must be clean *)
+(* the extracted statement-level model of sqlstore.Store (coq/model/Sql.v), run next to the reference store: the failure
+   position of SF.<k> is mapped onto the model's statement list (which also has the event-encoding step) *)
+let sql_crosscheck (a : ostring list) : unit =
+  let db = ref { db_recs = []; db_outbox = []; db_noid = n_of_int 1 } and rs = ref rstore0 in
+  List.iter (fun op ->
+    (match split '.' op with
+     | "S" :: _ -> (match parse_sop op with SStore r -> let (d, _) = sql_store !db r None in db := d | _ -> ())
+     | "SF" :: k :: _ ->
+       let k = ios k in let k = if k >= 3 then k + 1 else k in
+       (match parse_sop op with SStoreFail r -> let (d, ok) = sql_store !db r (Some (nat_of_int k)) in
+          if ok then failwith "extracted sql_store committed a failing Store"; db := d | _ -> ())
+     | "D" :: _ -> (match parse_sop op with SDelOutbox id -> db := { !db with db_outbox = List.filter (fun o -> o.o_id <> id) !db.db_outbox } | _ -> ())
+     | _ -> ());
+    let (r', _) = ref_step !rs (parse_sop op) in rs := r';
+    if db_abs !db <> !rs then failwith "extracted Sql model and reference store disagree (contradicts C18_store_refines)") a
+
 let sq_model (a : ostring list) : ostring list =
+  sql_crosscheck a;
   with_created := false;
   let r = (try ms_model a with e -> with_created := true; raise e) in
   with_created := true;
